@@ -30,22 +30,22 @@ func (r *Rng) Intn(n int) int {
 	return int(r.U64() % uint64(n))
 }
 func (r *Rng) Chance(num, den int) bool { return r.Intn(den) < num }
-func (r *Rng) Fork() *Rng              { return NewRng(r.U64()) }
+func (r *Rng) Fork() *Rng               { return NewRng(r.U64()) }
 
 // Omni is the harness type behind every interface-typed value: it implements the method sets
 // of all interfaces the corpus uses as parameter or result types, and carries a tag.
 type Omni struct{ Tag string }
 
-func (o *Omni) Error() string                   { return "omni-error:" + o.Tag }
-func (o *Omni) String() string                  { return "omni:" + o.Tag }
-func (o *Omni) Name() string                    { return "omni-name:" + o.Tag }
-func (o *Omni) Read(p []byte) (int, error)      { return 0, nil }
-func (o *Omni) Write(p []byte) (int, error)     { return len(p), nil }
-func (o *Omni) Close() error                    { return nil }
-func (o *Omni) Deadline() (time.Time, bool)     { return time.Time{}, false }
-func (o *Omni) Done() <-chan struct{}           { return nil }
-func (o *Omni) Err() error                      { return nil }
-func (o *Omni) Value(key any) any               { return nil }
+func (o *Omni) Error() string               { return "omni-error:" + o.Tag }
+func (o *Omni) String() string              { return "omni:" + o.Tag }
+func (o *Omni) Name() string                { return "omni-name:" + o.Tag }
+func (o *Omni) Read(p []byte) (int, error)  { return 0, nil }
+func (o *Omni) Write(p []byte) (int, error) { return len(p), nil }
+func (o *Omni) Close() error                { return nil }
+func (o *Omni) Deadline() (time.Time, bool) { return time.Time{}, false }
+func (o *Omni) Done() <-chan struct{}       { return nil }
+func (o *Omni) Err() error                  { return nil }
+func (o *Omni) Value(key any) any           { return nil }
 
 var _ context.Context = (*Omni)(nil)
 
